@@ -319,3 +319,34 @@ Definition body_read (b : body) (blen : Z) : list Z * option err * body :=
     | (None, _) => (out, option_map replace_error e, b1)
     end
   end.
+
+(** * Drivers: a caller that keeps reading with buffers of the given sizes until an error *)
+Definition new_stream (s : src) (maxHdr : Z) : stream := mkStream s 0 false None [] maxHdr [] 0.
+
+Fixpoint stream_reads (x : stream) (bufs : list Z) : list Z * option err * stream :=
+  match bufs with
+  | [] => ([], None, x)
+  | n :: bufs' =>
+    let '(out, e, x') := stream_read x n in
+    match e with
+    | Some _ => (out, e, x')
+    | None => let '(out2, e2, x2) := stream_reads x' bufs' in (out ++ out2, e2, x2)
+    end
+  end.
+
+Fixpoint body_reads (b : body) (bufs : list Z) : list Z * option err * body :=
+  match bufs with
+  | [] => ([], None, b)
+  | n :: bufs' =>
+    let '(out, e, b') := body_read b n in
+    match e with
+    | Some _ => (out, e, b')
+    | None => let '(out2, e2, b2) := body_reads b' bufs' in (out ++ out2, e2, b2)
+    end
+  end.
+
+Fixpoint stream_writes (x : stream) (bs : list (list Z)) : stream :=
+  match bs with
+  | [] => x
+  | b :: bs' => let '(_, _, x') := stream_write x b in stream_writes x' bs'
+  end.
